@@ -38,6 +38,10 @@ pub struct Case {
     /// add --deps (the named targets then pull in what they use)
     #[serde(default)]
     pub deps: bool,
+    /// how the commands are requested: 0 = all with -c, 1 = all through a sequence (-s),
+    /// 2 = the first through a sequence and the rest with -c (the order stays the same)
+    #[serde(default)]
+    pub via_sequence: u8,
 }
 
 const ARG_POOL: [&str; 16] = [
@@ -178,6 +182,18 @@ pub fn strategy() -> impl Strategy<Value = Case> {
                 };
                 (vec![], ts)
             };
+            // `--args` is only accepted together with exactly one `-c` command
+            let via_sequence = if cli_args.is_empty() { (tsel.rotate_left(5) % 3) as u8 } else { 0 };
+            let mut config = config;
+            match via_sequence {
+                1 => {
+                    config.sequences.insert("pipeline".into(), commands.clone());
+                }
+                2 => {
+                    config.sequences.insert("pipeline".into(), commands[..1].to_vec());
+                }
+                _ => {}
+            }
             Case {
                 config,
                 commands,
@@ -189,6 +205,7 @@ pub fn strategy() -> impl Strategy<Value = Case> {
                 cli_args,
                 cli_targets,
                 deps,
+                via_sequence,
             }
         })
 }
@@ -285,8 +302,25 @@ pub fn check(case: &Case, w: usize) -> CheckResult {
         env.write_file(&path, serde_json::to_string(&content).unwrap().as_bytes());
     }
     env.set_plan(&BTreeMap::new());
-    let mut args: Vec<String> = vec!["run".into(), "-c".into()];
-    args.extend(case.commands.iter().cloned());
+    let mut args: Vec<String> = vec!["run".into()];
+    match case.via_sequence {
+        1 => {
+            args.push("-s".into());
+            args.push("pipeline".into());
+        }
+        2 => {
+            args.push("-s".into());
+            args.push("pipeline".into());
+            if case.commands.len() > 1 {
+                args.push("-c".into());
+                args.extend(case.commands[1..].iter().cloned());
+            }
+        }
+        _ => {
+            args.push("-c".into());
+            args.extend(case.commands.iter().cloned());
+        }
+    }
     if !case.cli_targets.is_empty() {
         args.push("-t".into());
         args.extend(case.cli_targets.iter().cloned());
@@ -383,6 +417,7 @@ pub fn check(case: &Case, w: usize) -> CheckResult {
         }
     }
     Ok(CaseInfo::new(multi_source || custom)
+        .class_if(case.via_sequence != 0, "commands-through-a-sequence")
         .class_if(multi_source, "multi-source-args")
         .class_if(custom, "custom-dir-or-definition")
         .class_if(!case.cli_args.is_empty(), "cli-args")
